@@ -649,4 +649,121 @@ theorem pair_unique_of_nodup_fst {α β : Type} : ∀ {l : List (α × β)}, (l.
     · exact absurd (by rw [← e2]; exact mem_map_of_mem (f := (·.1)) h1 : x.1 ∈ xs.map (·.1)) hn.1
     · exact pair_unique_of_nodup_fst hn.2 h1 h2
 
+/-! ### `state.actions` -/
+
+theorem scopeOf_incr_self (b n : Nat) : ∀ t : ActTbl, scopeOf b (incr b n t) = (scopeOf b t).map (· + n)
+  | [] => rfl
+  | p :: t => by
+    have ih := scopeOf_incr_self b n t
+    by_cases e : p.1 = b
+    · simp [scopeOf, incr, e]
+    · have hb : (p.1 == b) = false := by simp [e]
+      simp only [scopeOf, incr, map_cons, e, if_false, find?_cons, hb] at ih ⊢
+      exact ih
+
+theorem scopeOf_setCount_self (b n : Nat) : ∀ t : ActTbl, scopeOf b (setCount b n t) = (scopeOf b t).map (fun _ => n)
+  | [] => rfl
+  | p :: t => by
+    have ih := scopeOf_setCount_self b n t
+    by_cases e : p.1 = b
+    · simp [scopeOf, setCount, e]
+    · have hb : (p.1 == b) = false := by simp [e]
+      simp only [scopeOf, setCount, map_cons, e, if_false, find?_cons, hb] at ih ⊢
+      exact ih
+
+theorem scopeOf_del_ne {a b : Nat} (hne : a ≠ b) : ∀ t : ActTbl, scopeOf b (del a t) = scopeOf b t
+  | [] => rfl
+  | p :: t => by
+    have ih := scopeOf_del_ne hne t
+    unfold scopeOf del at ih ⊢
+    by_cases e : p.1 = a
+    · have hk : (p.1 != a) = false := by simp [e]
+      have hb : (p.1 == b) = false := by simp [e, hne]
+      simp only [filter_cons, hk, Bool.false_eq_true, if_false, find?_cons, hb]
+      exact ih
+    · have hk : (p.1 != a) = true := by simp [e]
+      simp only [filter_cons, hk, if_true, find?_cons]
+      cases hb : (p.1 == b) with
+      | true => rfl
+      | false => exact ih
+
+theorem scopeOf_del_self (a : Nat) (t : ActTbl) : scopeOf a (del a t) = none := by
+  simp only [scopeOf, del, Option.map_eq_none_iff, find?_eq_none]
+  intro p hp
+  have := (mem_filter.1 hp).2
+  simpa using this
+
+theorem cowinRefs_cons_picked (w : HeadInfo) (fs : List (HeadInfo × Fate)) : cowinRefs ((w, Fate.picked) :: fs) = cowinRefs fs := by
+  simp [cowinRefs, filter_cons]
+
+theorem scope_after_others (w : HeadInfo) (b : Nat) (hb : w.act = some b) : ∀ (L : List HeadInfo) (t : ActTbl),
+    (∀ h ∈ L, h.act ≠ some b) →
+    scopeOf b (applyFates (some w) (L.map (fun h => (h, fateOf w h))) t) =
+      (scopeOf b t).map (· + cowinRefs (L.map (fun h => (h, fateOf w h))))
+  | [], t, _ => by simp [applyFates, cowinRefs]
+  | h :: L, t, hd => by
+    have hd' : ∀ x ∈ L, x.act ≠ some b := fun x hx => hd x (mem_cons_of_mem _ hx)
+    have hh : h.act ≠ some b := hd h mem_cons_self
+    simp only [map_cons]
+    cases hf : fateOf w h with
+    | picked => exact absurd hf (fateOf_ne_picked w h)
+    | cowin =>
+      simp only [applyFates]
+      rw [scope_after_others w b hb L _ hd']
+      cases ha : h.act with
+      | none =>
+        simp [cowinEffect, hb, ha, cowinRefs, filter_cons]
+      | some a =>
+        have hab : a ≠ b := by intro e; apply hh; rw [ha, e]
+        simp only [cowinEffect, hb, ha, hab, if_false]
+        rw [scopeOf_del_ne hab, scopeOf_incr_self]
+        cases scopeOf b t with
+        | none => rfl
+        | some n => simp [cowinRefs, filter_cons, ha]; omega
+    | caught =>
+      simp only [applyFates]
+      rw [scope_after_others w b hb L _ hd']
+      simp [cowinRefs, filter_cons]
+    | aborted =>
+      simp only [applyFates]
+      rw [scope_after_others w b hb L _ hd']
+      simp [cowinRefs, filter_cons]
+
+/-- scope count of the winning action after one group iteration -/
+theorem group_scope_count (one : Int) (g : List HeadInfo) (c : Nat) (t : ActTbl) (w : HeadInfo) (b : Nat)
+    (hw : (w, Fate.picked) ∈ resolveGroup one g c) (hb : w.act = some b) (hst : w.isStart = true)
+    (hin : (scopeOf b t).isSome = true) (hd : ∀ h ∈ g, h.uid ≠ w.uid → h.act ≠ some b) :
+    scopeOf b (applyFates none (resolveGroup one g c) t) = some (1 + cowinRefs (resolveGroup one g c)) := by
+  have hg : g ≠ [] := ne_nil_of_mem (mem_resolveGroup_fst hw)
+  obtain ⟨w0, _, _, hr⟩ := resolveGroup_shape one g c hg
+  have hw0 : (w0, Fate.picked) ∈ resolveGroup one g c := by rw [hr]; exact mem_cons_self
+  have e : w0 = w := picked_unique_in_group hw0 hw
+  rw [e] at hr
+  rw [hr, cowinRefs_cons_picked]
+  simp only [applyFates]
+  rw [scope_after_others w b hb]
+  · simp only [pickedEffect, hb, hst, if_true]
+    rw [scopeOf_setCount_self]
+    cases hsc : scopeOf b t with
+    | none => rw [hsc] at hin; simp at hin
+    | some n => simp <;> omega
+  · intro h hh
+    have := mem_filter.1 hh
+    exact hd h (mem_ordered.1 this.1) (by simpa using this.2)
+
+theorem cowinRefs_eq_count : ∀ (fs : List (HeadInfo × Fate)),
+    (∀ p ∈ fs, p.2 = Fate.cowin → p.1.act.isSome = true ∧ p.1.nrefs = 1) →
+    cowinRefs fs = (fs.filter (fun p => p.2 == Fate.cowin)).length
+  | [], _ => rfl
+  | p :: fs, h => by
+    have ih := cowinRefs_eq_count fs (fun q hq => h q (mem_cons_of_mem _ hq))
+    unfold cowinRefs at ih ⊢
+    by_cases e : p.2 = Fate.cowin
+    · obtain ⟨h1, h2⟩ := h p mem_cons_self e
+      simp only [filter_cons, e, beq_self_eq_true, h1, Bool.and_self, if_true, map_cons, sum_cons, length_cons, h2, ih]
+      omega
+    · have hb : (p.2 == Fate.cowin) = false := by simp [e]
+      simp only [filter_cons, hb, Bool.false_and, Bool.false_eq_true, if_false]
+      exact ih
+
 end NemoVerif.Conflict
